@@ -93,8 +93,43 @@ func init() {
 		}
 		return "differ " + hex.EncodeToString(b1) + " " + hex.EncodeToString(b2)
 	}
+	// nmf2 <name> <v1> <v2> [<ofs> <width>]: build with v1, encode; build the same field name with v2 (and through the
+	// dedicated no-mask constructors where they exist); encode the FIRST field again
+	runners["nmf2"] = func(a []string) string {
+		v1, _ := strconv.ParseUint(a[1], 10, 64)
+		v2, _ := strconv.ParseUint(a[2], 10, 64)
+		m := ints(a[3:])
+		f1, err := of.NewMatchField(a[0], v1, m...)
+		if err != nil {
+			return "err"
+		}
+		b1, _ := f1.MarshalBinary()
+		h1 := hex.EncodeToString(b1)
+		f2, err := of.NewMatchField(a[0], v2, m...)
+		if err != nil {
+			return "err"
+		}
+		b2, _ := f2.MarshalBinary()
+		// further no-mask builds of well-known fields through the dedicated constructors
+		of.NewRegMatchField(3, uint32(v2), nil)
+		of.NewCTZoneMatchField(uint16(v2))
+		of.NewConjIDMatchField(uint32(v2))
+		of.NewCTMarkMatchField(uint32(v2), nil)
+		b1b, _ := f1.MarshalBinary()
+		if hex.EncodeToString(b1b) != h1 {
+			return "changed " + h1 + " -> " + hex.EncodeToString(b1b)
+		}
+		return "same " + h1 + " " + hex.EncodeToString(b2)
+	}
 	families["C17"] = func(c *Ctx) {
 		names := namesFrom(verifRoot() + "/lean/OFV/Gen/Registry.lean")
+		for _, n := range names {
+			c.run("nmf2", n, 1, 2)
+			c.run("nmf2", n, 0, 255, 0, 8)
+		}
+		for _, n := range []string{"NXM_NX_REG3", "NXM_NX_CT_ZONE", "NXM_NX_CONJ_ID", "NXM_NX_CT_MARK"} {
+			c.run("nmf2", n, 17, 34)
+		}
 		width := func(n string) int { return specWidth[n] }
 		loadSpecWidths()
 		vals := func(w int) []string {
